@@ -2,7 +2,8 @@
 C17 — property theorems: MDO formulations are equivalent views of the same problem.
 
 Only property theorems (and the few definitions needed to state them) live here; helper lemmas are
-in `Lemmas/C17.lean` (index arithmetic), `Lemmas/C17Form.lean` (formulation-level functions) and
+in `Lemmas/C17.lean` (index arithmetic), `Lemmas/C17Form.lean` (formulation-level functions),
+`Lemmas/C17Par.lean` (parallel IDF, equilibrium start, heap of returned arrays) and
 `Lemmas/C17Alg.lean` (matrix algebra).
 
 A design vector laid out along `names` is written `cat names pt`: the concatenation of the named
@@ -11,6 +12,7 @@ arbitrary numbers / sizes / orders of variables, arbitrary discipline bodies (`r
 the statement is about bookkeeping, and arbitrary coupled systems where it is about equivalence.
 -/
 import GemseoVerif.Lemmas.C17Form
+import GemseoVerif.Lemmas.C17Par
 import GemseoVerif.Lemmas.C17Alg
 
 namespace GV.C17
@@ -393,6 +395,126 @@ theorem linear_branch_exact (c : Vec) (j : Mat) (x0 x : Vec) (hc : c.length = j.
     linApprox (vadd c (matVec j x0)) j x0 x = vadd c (matVec j x) :=
   linApprox_affine c j x0 x hc
 
+/-! ## 9. Parallel IDF exposes the functions of the sequential IDF -/
+
+/-- **`n_processes > 1` changes no value and no derivative.**  In parallel mode every function and
+    consistency constraint of IDF is built over the `MDOParallelChain` of all the disciplines (input
+    grammar = union of the input grammars).  At every design point (any sizes, any order, arbitrary
+    quadratic/affine bodies of the other disciplines) the value and the Jacobian of the outputs of a
+    discipline `d`, and of `d`'s consistency constraint, normalised or not, are those of the sequential
+    IDF, i.e. those of `d` alone: columns of variables that `d` does not read are zero in both. -/
+theorem idf_parallel_eq_sequential (s : Sys) (d : Disc) (outs : List String) (normalize : Bool)
+    (pt : String → Vec)
+    (hd : d ∈ s.discs) (hprod : ∀ o ∈ outs, s.producer? o = some d)
+    (hprodc : ∀ o ∈ s.outputCouplings d, s.producer? o = some d)
+    (hnd : s.ds.names.Nodup) (hlen : ∀ n ∈ s.ds.names, (pt n).length = sizeOf s.sizes n)
+    (hrow : ∀ o, ∀ i r, i ∈ s.ds.names → r < d.rowsOf o →
+      ((d.jac s.sizes (namedData s.ds.names d.hasInput pt) o i).getD r []).length = sizeOf s.sizes i) :
+    parEval s s.sizes s.ds.names outs (cat s.ds.names pt) = ffdEval s.sizes s.ds.names d outs (cat s.ds.names pt) ∧
+    parJacF s s.sizes s.ds.names outs (cat s.ds.names pt) = ffdJac s.sizes s.ds.names d outs (cat s.ds.names pt) ∧
+    consEvalPar s normalize d (cat s.ds.names pt) = consEvalRaw s normalize d (cat s.ds.names pt) ∧
+    consJacPar s normalize d (cat s.ds.names pt) = consJacRaw s normalize d (cat s.ds.names pt) :=
+  ⟨parEval_eq_ffdEval s s.sizes s.ds.names d outs pt hd hprod hnd hlen,
+   parJacF_eq_ffdJac s s.sizes s.ds.names d outs pt hd hprod hnd hlen (fun o _ => hrow o),
+   consEvalPar_eq s normalize d pt hd hprodc hnd hlen,
+   consJacPar_eq s normalize d pt hd hprodc hnd hlen (fun o _ => hrow o)⟩
+
+/-! ## 10. `start_at_equilibrium` installs the multidisciplinary solution of the CURRENT design point -/
+
+/-- **The start point IDF installs is consistent at the current design values.**  `cat names pt` is the
+    current value of the design space (any design point — the disciplines' default inputs do not occur
+    in the statement), `ystar` the couplings returned by the MDA (accepted by the model only when they
+    solve the coupled system at the current design values).  Then the new current value keeps every
+    design variable, holds `ystar` for the couplings, and **every consistency constraint of IDF —
+    sequential or parallel, normalised or not — vanishes there.** -/
+theorem idf_equilibrium_start_is_multidisciplinary_solution (s : Sys) (pt : String → Vec) (ystar : Data)
+    (cur' : Vec)
+    (hnd : s.ds.names.Nodup) (hlen : ∀ n ∈ s.ds.names, (pt n).length = sizeOf s.sizes n)
+    (hylen : ∀ k ∈ s.allCouplings, (ystar.get k).length = sizeOf s.sizes k)
+    (hidf : ∀ c ∈ s.allCouplings, c ∈ s.ds.names)
+    (heq : idfEquilibrium s (cat s.ds.names pt) ystar = some cur') :
+    cur' = cat s.ds.names (eqPt s pt ystar) ∧
+    (∀ n ∈ s.ds.names, n ∉ s.allCouplings → slice s.sizes s.ds.names cur' n = pt n) ∧
+    (∀ k ∈ s.allCouplings, slice s.sizes s.ds.names cur' k = ystar.get k) ∧
+    ∀ (d : Disc) (normalize : Bool), d ∈ s.discs →
+      (∀ k ∈ s.outputCouplings d, s.producer? k = some d) →
+      (normFactor s.ds (s.outputCouplings d)).length = totalSize s.sizes (s.outputCouplings d) →
+      (∀ a ∈ normFactor s.ds (s.outputCouplings d), a ≠ 0) →
+      consEvalRaw s normalize d cur' = some (List.replicate (totalSize s.sizes (s.outputCouplings d)) 0) ∧
+      consEvalPar s normalize d cur' = some (List.replicate (totalSize s.sizes (s.outputCouplings d)) 0) := by
+  unfold idfEquilibrium at heq
+  split at heq
+  · rename_i hcons
+    have hcur : cur' = cat s.ds.names (eqPt s pt ystar) := by
+      rw [← equilibrium_value s pt ystar hlen]; exact (Option.some.inj heq).symm
+    have hlen' : ∀ n ∈ s.ds.names, (eqPt s pt ystar n).length = sizeOf s.sizes n := by
+      intro n hn
+      unfold eqPt
+      by_cases hc : n ∈ s.allCouplings
+      · simp [hc, hylen n hc]
+      · simp [hc, hlen n hn]
+    refine ⟨hcur, ?_, ?_, ?_⟩
+    · intro n hn hc
+      rw [hcur, slice_cat s.sizes s.ds.names n _ hnd hn hlen']
+      simp [eqPt, hc]
+    · intro k hk
+      rw [hcur, slice_cat s.sizes s.ds.names k _ hnd (hidf k hk) hlen']
+      simp [eqPt, hk]
+    · intro d normalize hd hprod hfl hnz
+      have hoc : ∀ k ∈ s.outputCouplings d, k ∈ s.ds.names :=
+        fun k hk => hidf k (outputCouplings_sub s d k hk)
+      have hx : maskX s.sizes (s.outputCouplings d) s.ds.names cur'
+          = some (cat (s.outputCouplings d) (eqPt s pt ystar)) := by
+        rw [hcur]; exact maskX_cat s.sizes _ s.ds.names _ hnd hoc hlen'
+      have hrun : (s.outputCouplings d).flatMap
+            (d.run (namedData s.ds.names d.hasInput (eqPt s pt ystar)))
+          = cat (s.outputCouplings d) (eqPt s pt ystar) := by
+        unfold cat
+        apply List.flatMap_congr
+        intro k hk
+        exact equilibrium_run_eq s d pt ystar k hlen hidf hcons (outputCouplings_sub s d k hk) (hprod k hk)
+      have hc : ffdEval s.sizes s.ds.names d (s.outputCouplings d) cur'
+          = some (cat (s.outputCouplings d) (eqPt s pt ystar)) := by
+        rw [hcur]
+        unfold ffdEval
+        rw [gEval_named s.sizes s.ds.names d.hasInput d.run _ _ hnd hlen', hrun]
+      have hcl : (cat (s.outputCouplings d) (eqPt s pt ystar)).length
+          = totalSize s.sizes (s.outputCouplings d) :=
+        cat_length s.sizes _ _ (fun n hn => hlen' n (hoc n hn))
+      obtain ⟨v, hv, hiff⟩ := idf_consistency_zero_iff_fixed_point s normalize d cur' _ _ hx hc rfl
+        (by rw [hfl, hcl]) hnz
+      have hzero : consEvalRaw s normalize d cur'
+          = some (List.replicate (totalSize s.sizes (s.outputCouplings d)) 0) := by
+        rw [hv, hiff.mpr rfl, hcl]
+      refine ⟨hzero, ?_⟩
+      rw [hcur, consEvalPar_eq s normalize d _ hd hprod hnd hlen', ← hcur]
+      exact hzero
+  · cases heq
+
+/-! ## 11. The arrays a formulation returns belong to the caller -/
+
+/-- **Every Jacobian ever returned still holds the derivatives of its own design point.**  For any
+    number of function objects sharing the heap (each with its own adapter buffer), and any history of
+    `jac` calls `(function, adapter Jacobian j, unmasking un)` — this is `FunctionFromDiscipline`
+    (`j = gAdapterJac …`, `un = unmaskRows inputNames names`) as well as an MDF function (`j =
+    mdaJacRows …`, `un = unmaskRows names names`: nothing is masked, yet a new array is filled) — the
+    arrays held by the caller after the last call are, in call order, exactly the `un j` of each call. -/
+theorem returned_jacobians_persist (nFun : Nat) (cs : List (Nat × Mat × (Mat → Option Mat))) (h' : JHeap)
+    (hrun : (JHeap.empty nFun).run cs = some h') :
+    h'.held.map some = cs.map (fun c => c.2.2 c.2.1) := by
+  have := (JHeap.run_spec cs _ h' (JHeap.wf_empty nFun) hrun).2
+  simpa [JHeap.held, JHeap.empty] using this
+
+/-- The same for the functions of a formulation given by their definition (`FFD`): after any history of
+    `jac` calls at design vectors `x_i` on function objects `f_i`, the `i`-th array the caller holds is
+    `gJac` of `f_i` at `x_i` — the pure Jacobian of sections 1–4, about which `adapter_jacobian_columns`
+    and the equivalence theorems speak. -/
+theorem formulation_jacobians_persist (spec : Nat → FFD) (nFun : Nat) (calls : List (Nat × Vec)) (h' : JHeap)
+    (hrun : jacHistory spec (JHeap.empty nFun) calls = some h') :
+    h'.held.map some = calls.map (fun c => (spec c.1).jacAt c.2) := by
+  have := (jacHistory_spec spec calls _ h' (JHeap.wf_empty nFun) hrun).2
+  simpa [JHeap.held, JHeap.empty] using this
+
 /-! ## Non-vacuity: the hypotheses are satisfiable by non-trivial states -/
 
 def exSizes : Sizes := [("xs", 2), ("y2", 1), ("x1", 1), ("y1", 2)]
@@ -452,5 +574,39 @@ example : mdfView exSys ["xs", "x2"] ["f"] [2, 1] [("y1", [18/7]), ("y2", [16/7]
 -- feed-forward chain: y0 = x, y1 = y0 + 1, y2 = y0 * y1
 example : chainUpTo (fun i (x : Nat) y => match i with | 0 => x | 1 => y 0 + 1 | _ => y 0 * y 1) 3 (fun _ => 0) 3 2
     = 12 := by decide
+
+-- parallel IDF: the chain over D1 and D2 reads every variable but `u`; the function `f` of D1 has the value
+-- and the Jacobian of D1 alone (zero columns for `y1`, `x2` that only D2 reads)
+example : exSys.parHasInput "x2" = true ∧ exD1.hasInput "x2" = false ∧ exSys.parHasInput "u" = false := by
+  decide +kernel
+example : parEval exSys exSys.sizes exSys.ds.names ["f"] [16/7, 2, 0, 18/7, 1] = some [354/49] := by
+  decide +kernel
+example : parJacF exSys exSys.sizes exSys.ds.names ["f"] [16/7, 2, 0, 18/7, 1]
+    = ffdJac exSys.sizes exSys.ds.names exD1 ["f"] [16/7, 2, 0, 18/7, 1] ∧
+    parJacF exSys exSys.sizes exSys.ds.names ["f"] [16/7, 2, 0, 18/7, 1] = some [[32/7, 1, 0, 0, 0]] := by
+  decide +kernel
+example : consEvalPar exSys true exD1 [16/7, 2, 0, 3, 1] = some [-3/112] := by decide +kernel
+-- start_at_equilibrium from the current value y2 = 5, xs = 2, u = 0, y1 = -1, x2 = 1: the certificate is
+-- accepted at the CURRENT design values (xs = 2, x2 = 1), the couplings are replaced, the rest is kept
+example : idfEquilibrium exSys [5, 2, 0, -1, 1] [("y1", [18/7]), ("y2", [16/7])] = some [16/7, 2, 0, 18/7, 1] := by
+  decide +kernel
+-- the solution of ANOTHER design point (xs = 0, x2 = 0: y1 = 8/7, y2 = 4/7 — what an MDA run at the
+-- disciplines' default inputs returns) is refused
+example : exSys.consistent [("xs", [0]), ("x2", [0]), ("y1", [8/7]), ("y2", [4/7])] = true := by decide +kernel
+example : idfEquilibrium exSys [5, 2, 0, -1, 1] [("y1", [8/7]), ("y2", [4/7])] = none := by decide +kernel
+-- heap: two calls of one function object, nothing masked (`un = some`: the fresh copy of an MDF function)
+example : ((JHeap.empty 1).run [(0, [[1, 2]], fun m => some m), (0, [[3, 4]], fun m => some m)]).map JHeap.held
+    = some [[[1, 2]], [[3, 4]]] := by decide +kernel
+-- ... two function objects interleaved, each with its own buffer
+example : ((JHeap.empty 2).run [(0, [[1]], fun m => some m), (1, [[2]], fun m => some m),
+      (0, [[3]], fun m => some m)]).map JHeap.held = some [[[1]], [[2]], [[3]]] := by decide +kernel
+-- ... and what the theorem excludes: if the adapter's buffer itself were handed to the caller ("nothing to
+-- unmask"), the array returned by the first call would hold the Jacobian of the second point
+example : (((JHeap.empty 1).aliasingJacCall 0 [[1, 2]]).aliasingJacCall 0 [[3, 4]]).held
+    = [[[3, 4]], [[3, 4]]] := by decide +kernel
+-- a FunctionFromDiscipline of the example system on the heap: `f` of D1 at two design vectors
+def exFFD : FFD := ⟨exSys.sizes, exSys.ds.names, exD1.hasInput, exD1.jac exSys.sizes, exD1.rowsOf, ["f"]⟩
+example : (jacHistory (fun _ => exFFD) (JHeap.empty 1) [(0, [16/7, 2, 0, 18/7, 1]), (0, [1, 0, 0, 0, 0])]).map
+    JHeap.held = some [[[32/7, 1, 0, 0, 0]], [[2, 1, 0, 0, 0]]] := by decide +kernel
 
 end GV.C17
